@@ -265,8 +265,8 @@ RULE = ("2-4 threads x 1-3 requests (GET/POST, bodies 0-300 bytes, chunked for t
 
 PROP = Prop(
     P, level="exploration", rule=RULE,
-    layers=[Layer("threads", strategy=scenarios, execute=execute, budget={"quick": 1000, "thorough": 60000}),
-            Layer("systematic", cases=systematic_cases, execute=execute_systematic)],
+    layers=[Layer("threads", stall_is_violation=True, strategy=scenarios, execute=execute, budget={"quick": 1000, "thorough": 60000}),
+            Layer("systematic", stall_is_violation=True, cases=systematic_cases, execute=execute_systematic)],
     assumptions=["stdlib threading semantics are trusted; the cooperative Lock/Event/Semaphore (vf/threads.py) implement them for the baton scheduler, "
                  "httpcore's own wrapper classes stay the real code",
                  "interleavings are sampled by a harness-owned scheduler and are reproducible from the replay file; real parallel execution is not modelled "
